@@ -4,6 +4,7 @@ package main
 // contents of objects resolved from the effect log, and acceleration of loops whose state advances affinely.
 
 import (
+	"sort"
 	"fmt"
 	"go/token"
 	"go/types"
@@ -367,9 +368,21 @@ func (d *protoDom) loopArrive(fr *sFrame, st *sState, b, pred *ssa.BasicBlock) b
 	st.geff = append(append([]gEffect(nil), st.geff[:s0.neff]...), gEffect{kind: "rep", rep: &gRep{k: k, body: g.body, dOff: g.dOff, dSrc: g.dSrc}})
 	facts := append([]pFact(nil), st.pfacts[:s0.nfacts]...)
 	facts = append(facts, fa)
-	// the condition held in iteration k-1 (and, being affine in the iteration number, in all between)
 	km1 := pAdd(k, pC(-1))
-	facts = append(facts, pFact{a: pAdd(fa.a, pMul(pC(df), km1)), op: fa.op, b: fa.b})
+	if fa.op == token.NEQ {
+		// D_j = D0 + df*j != 0 for all j in [0,k): when D0 is a multiple of df, the zero of D lies at the integer m = -D0/df;
+		// m >= 0 (provable at the loop entry) and m outside [0,k) give m >= k
+		d0 := polyOfPlain(pAdd(fa.a, pNeg(fa.b)))
+		m, okDiv := spDivNeg(d0, df, pAdd(fa.a, pNeg(fa.b)))
+		if df == 0 || !okDiv || !proveP(facts, m, token.GEQ, pC(0)) {
+			e.fail("loop at %s: the condition %s != %s advances by %d per iteration and cannot be turned into a bound", pos, fa.a, fa.b, df)
+			return false
+		}
+		facts = append(facts, pFact{a: m, op: token.GEQ, b: k})
+	} else {
+		// the condition held in iteration k-1 (and, being affine in the iteration number, in all between)
+		facts = append(facts, pFact{a: pAdd(fa.a, pMul(pC(df), km1)), op: fa.op, b: fa.b})
+	}
 	facts = append(facts, pFact{a: k, op: token.GEQ, b: pC(2)})
 	st.pfacts = facts
 	g.neff, g.nfacts = len(st.geff), len(st.pfacts)
@@ -548,8 +561,11 @@ func (d *protoDom) streamCall(st *sState, call *ssa.Call, name string, args []sV
 	e := d.e
 	pos := e.p.InstrPos(call)
 	set := func(v sVal) { st.vals[call] = v }
+	if cal := call.Call.StaticCallee(); cal != nil && cal == sm3CompressFn(e.p) {
+		name = "sm3.compress"
+	}
 	switch name {
-	case "sm3.(*SM3).cf":
+	case "sm3.compress":
 		recv, ok1 := args[0].(gRecv)
 		msg, ok2 := args[1].(gSlice)
 		if !ok1 || !ok2 {
@@ -648,4 +664,96 @@ func (d *protoDom) streamBinop(x *ssa.BinOp, a, b sVal) (sVal, bool) {
 		}
 	}
 	return nil, false
+}
+
+// sm3CompressFn: the compression function of package sm3, identified by its shape rather than its name: the one unexported
+// method of *SM3 that takes a byte slice, returns nothing, and touches no field of the state but the chaining value h.
+var sm3CompressCache = map[*Prog]*ssa.Function{}
+
+func sm3CompressFn(p *Prog) *ssa.Function {
+	if f, ok := sm3CompressCache[p]; ok {
+		return f
+	}
+	var found []*ssa.Function
+	for _, fn := range p.RepoFuncs() {
+		if fn.Pkg == nil || shortPkg(fn.Pkg.Pkg.Path()) != "sm3" || len(fn.Blocks) == 0 || token.IsExported(fn.Name()) {
+			continue
+		}
+		sig := fn.Signature
+		if sig.Recv() == nil || sig.Results().Len() != 0 || sig.Params().Len() != 1 || len(fn.Params) != 2 {
+			continue
+		}
+		if sl, ok := sig.Params().At(0).Type().Underlying().(*types.Slice); !ok || elemSize(sl.Elem()) != 1 {
+			continue
+		}
+		pt0, ok := sig.Recv().Type().Underlying().(*types.Pointer)
+		if !ok {
+			continue
+		}
+		if nt, ok := pt0.Elem().(*types.Named); !ok || nt.Obj().Name() != "SM3" {
+			continue
+		}
+		// fields touched directly
+		onlyH, touchesH := true, false
+		for _, b := range fn.Blocks {
+			for _, in := range b.Instrs {
+				if fa, ok := in.(*ssa.FieldAddr); ok && fa.X == ssa.Value(fn.Params[0]) {
+					nm := pt0.Elem().Underlying().(*types.Struct).Field(fa.Field).Name()
+					if nm == "h" {
+						touchesH = true
+					} else {
+						onlyH = false
+					}
+				}
+			}
+		}
+		if onlyH && touchesH {
+			found = append(found, fn)
+		}
+	}
+	var f *ssa.Function
+	if len(found) == 1 {
+		f = found[0]
+	}
+	sm3CompressCache[p] = f
+	return f
+}
+
+// spDivNeg: the term -p/c when every coefficient of the polynomial p (of the term src) is divisible by c
+func spDivNeg(p spoly, c int64, src *pt) (*pt, bool) {
+	if c == 0 {
+		return nil, false
+	}
+	atoms := map[string]*pt{}
+	var walk func(t *pt)
+	walk = func(t *pt) {
+		atoms[strings.ReplaceAll(t.String(), "*", "x")] = t
+		for _, a := range t.args {
+			walk(a)
+		}
+	}
+	walk(src)
+	out := pC(0)
+	var keys []string
+	for k := range p {
+		keys = append(keys, k)
+	}
+	sort.Strings(keys)
+	for _, mono := range keys {
+		co := p[mono]
+		if !co.IsInt64() || co.Int64()%c != 0 {
+			return nil, false
+		}
+		q := -co.Int64() / c
+		if mono == "" {
+			out = pAdd(out, pC(q))
+			continue
+		}
+		at, ok := atoms[mono]
+		if !ok {
+			return nil, false // a product of atoms: not needed for lengths
+		}
+		out = pAdd(out, pMul(pC(q), at))
+	}
+	return out, true
 }
